@@ -229,6 +229,7 @@ theorem obscure_elide_shape {e r : Env} (hr : obscure A Z .elide e = .ok r) :
     r = .elided e.digest := by
   simp only [obscure] at hr; injection hr with hr; subst hr
   unfold elide; split <;> rfl
+example : ∃ r, obscure idAead idDeflate .elide sA1 = .ok r := ⟨_, rfl⟩
 
 /-- `encrypt` gives an encrypted element whose declared digest is the one its `aad` decodes to -/
 theorem obscure_encrypt_shape {key : Bytes} {nonce : Digest → Bytes} {e r : Env}
@@ -237,6 +238,8 @@ theorem obscure_encrypt_shape {key : Bytes} {nonce : Digest → Bytes} {e r : En
   simp only [obscure] at hr
   obtain ⟨d, h1, h2⟩ := newEncryptedUnwrap_ok hr
   exact ⟨_, d, h1, h2⟩
+example : ∃ r, obscure idAead idDeflate (.encrypt [1] (fun _ => [2])) sA1 = .ok r :=
+  Res.isOk_iff.1 (by decide +kernel)
 
 /-- `compress` gives a compressed element with the digest of the original, except that an
 element that cannot be compressed (elided, encrypted) is left as it is -/
